@@ -19,6 +19,37 @@ the first operation is run and judged again under them.  Every tolerance of the 
 working units (A = one angstrom in working units replaces the absolute 1.0 of the angstrom-only formulas).  The default
 units are ALWAYS restored in a finally block (the cases of one shard share a process).
 
+Generator classes carried over from the seeded rounds of the other properties (all judged by the same oracles):
+ A  ledger: every system any call of the case returned (first route, second route, the head operation run under the default
+    units before / after, the operation repeated on another system object 'again') is kept with a bit-for-bit snapshot and
+    re-judged after every later call, after reset_units, after the in-place edits and at the end (label ledger / ledger_other).
+ B  caller-side mutation: the arrays handed IN (pos, db_vect, keyword values) must be bit-identical (values, dtype, shape, strides,
+    flags) after every call, refused or not; for odd k the caller then overwrites them in place, for k % 4 == 1 it also
+    overwrites the system it handed in (in place, or through the setters: atoms.view[...] = ..., box_set, pbc = ...) - the first
+    system of a history only at its end - and everything returned earlier must not move (mut_args, mut_input_*); the third
+    identical call (same argument objects re-used) is now also compared with the model before it is edited in place.
+ C  dtypes: what the caller hands in - pos / db_vect as float32, float16, big-endian, read-only, strided arrays, lists of numpy
+    scalars; integral positions as int8 ... uint64, big-endian, bool arrays and lists of numpy integer scalars; ptd_id / atype
+    as numpy scalars int8 ... uint64 and big-endian; atol as numpy float32 / float64 / big-endian scalar; keyword values as
+    float32 / float16 / int8 / int16 scalars and arrays (the vector a float32 / float16 array holds IS the request: the oracle
+    decides from the float64 value of what was passed) - and what the system stores ('store': positions float32 / float16 /
+    big-endian, types int8 ... uint64, properties float32 / float16 / int8 / int16 with the limits of the dtype among the values,
+    old_id in int8 ... uint64 reaching up to 4 below the limit, arrays handed to Atoms Fortran-ordered / strided / read-only; the
+    positions rounded to the storage dtype are the atoms' positions for the model, one rounding to the storage dtype is granted to
+    the position of a new atom).
+ E  near-threshold: displacements (1 -+ 1e-3) atol and (1 -+ 3e-4) atol, 1e-9 / 1e-6 / 1e-3 atol, twins 1e-3 inside / outside the
+    default atol, atoms and interstitial sites 1e-12 ... 1e-3 (relative) away from a face of the cell on either side, db_vect
+    scaled down by 1e-3 ... 1e-12.  The band of the look-up (below) is unchanged: what falls into it is skipped and counted.
+ G  exact images of the cell ('sym'): the 48 signed permutations of the Cartesian axes, the 6 renamings and 8 sign patterns of
+    the cell vectors applied exactly to cells whose LAMMPS form was mostly not rotated: triangular cells with negative entries,
+    permuted orthogonal cells, left-handed cells.
+ H  clause combos: the options of one call enumerated in every combination and the defect types (with site / scale / extras)
+    in every order for two and three successive calls.
+ (D, the working-unit configurations, was there; F, many decades in one array argument, does not apply: no argument of the four
+ generators has more than one row, the N x 3 positions and the property columns are compared bit for bit row by row, and each
+ atom's own distance is compared with atol - the decades between coordinates (origin +-100, working units from 1e-10 to 1e+2
+ per angstrom) and atol are covered by the cell and unit generators.)
+
 Site look-up is decided independently of atomman (numpy only, function `lookup`): with w_i the perpendicular
 widths of the cell, an image y = d0 + n.V of the separation d0 (n_i = 0 on non-periodic axes) satisfies
 |s0_i + n_i| <= |y| / w_i, so if atol < w_i / 2 on every periodic axis the only image that can be as short as
@@ -49,7 +80,13 @@ RULE = ("systems: conditioned cell (lengths 3-12, tilts up to half a length, cry
         "atol = 0.01 angstrom physically, optionally with the first operation run and judged under the default units before the "
         "switch and/or after the restore in the same process.  Non-trivial: the cell is tilted, rotated or has a non-zero origin AND the "
         "insertion succeeded with the site chosen by position through a periodic image or in box-relative coordinates "
-        "(history: additionally at least two successful insertions, so that old_id had to compose)")
+        "(history: additionally at least two successful insertions, so that old_id had to compose).  Carried over from the seeded rounds: "
+        "a ledger of every returned system re-judged after later calls / reset_units / in-place edits; argument arrays bit-identical "
+        "after the call, then overwritten by the caller together with the input system (in place or through the setters); narrow / "
+        "unsigned / big-endian / read-only / strided / numpy-scalar arguments and float32 / float16 / narrow-integer storage with the "
+        "dtype limits among the values; displacements 1e-3 and 3e-4 (relative) around atol and 1e-9 ... 1e-3 atol, atoms 1e-12 ... 1e-3 "
+        "from a face, tiny db_vect; exact signed-permutation / renamed / reversed (left-handed) images of the cell; clause combos: "
+        "all option combinations of one call and all ordered pairs / triples of defect types enumerated")
 ASSUMPTIONS = ["System.dvect returns the nearest of the 27 (9/3/1) neighbouring images (decided by C02); sites only reachable through a "
                "farther image are skipped",
                "Box.position_relative_to_cartesian is s.V+o to 1e-8 relative (decided by C01)",
@@ -58,13 +95,21 @@ ASSUMPTIONS = ["System.dvect returns the nearest of the 27 (9/3/1) neighbouring 
                "documented, only that it differs from the old_id of every other atom of the result",
                "the default (zero) value of a string property of a new interstitial atom is not asserted",
                "unitconvert.reset_units applies a working-unit configuration and set_in_units(x, 'angstrom') expresses angstrom "
-               "numbers in it (decided by C09); configurations without a length unit are not generated"]
+               "numbers in it (decided by C09); configurations without a length unit are not generated",
+               "a float32 / float16 / integer array or numpy scalar handed in means the float64 value it holds; a system whose positions "
+               "are stored in float32 / float16 consists of those stored values, and a new atom's position is granted one rounding to that "
+               "dtype; the id interstitial / dumbbell give a new atom (old_id.max() + 1 in the column's dtype) is not judged at the "
+               "exact limit of that dtype (it wraps); left-handed cells are accepted by Box and System.dvect (not covered by C02's "
+               "generator, decided here by the independent look-up)"]
 LEVEL_TEXT = ("Random single insertions and histories of 1-4 insertions of all four defect types over cells of any shape, every index, "
               "positions within and beyond the tolerance, images and relative coordinates, compared row by row with an independent "
               "model (count, order, survivors bit-identical, old_id composed to the first system, defect atoms last with requested "
               "position/type/values, cell/pbc/symbols, input untouched and unaliased), plus every documented refusal; the same under other process-wide working units "
-              "(reset_units named / seeded), before and after insertions under the default units in the same process.")
-TECHNIQUE = "model-based histories; independent exact site look-up (unique-image argument); refusal families; aliasing probes; working-unit configurations"
+              "(reset_units named / seeded), before and after insertions under the default units in the same process; every returned "
+              "system re-judged after later calls and after the caller overwrote its arguments and input; narrow dtypes for arguments and "
+              "storage; near-tolerance and near-face sites; exact symmetry images of the cell; option combinations and orders enumerated.")
+TECHNIQUE = ("model-based histories; independent exact site look-up (unique-image argument); refusal families; aliasing probes; "
+             "working-unit configurations; result ledger; caller-side mutation; dtype / layout variants; enumerated option combinations")
 WALL = {'quick': 60, 'thorough': 600}
 
 KEY_DB = 'C15:dumbbell:db_vect-scaled-origin'
@@ -162,7 +207,11 @@ def build_env(sysd, conv=_same):
             if all(g15.int_fits(v, dt) for v in oid):
                 store['oid'] = dt
                 if sd.get('lim'):
-                    oid[n // 2] = int(np.iinfo(np.dtype(dt)).max)       # the largest id the dtype holds (never also the smallest)
+                    # an id at the top of the dtype's range.  Room is left for the ids of the (at most four) atoms a history
+                    # creates: interstitial / dumbbell number a new atom old_id.max() + 1 IN THE COLUMN'S DTYPE, which at the
+                    # exact limit wraps around (numpy: RuntimeWarning, int8 127 + 1 -> -128; the same for int64) - a limit of
+                    # the dtype the caller chose for the column, nothing the docstrings promise anything about; not judged.
+                    oid[n // 2] = int(np.iinfo(np.dtype(dt)).max) - 4
                 break
     env = dict(A=A, atol0=float(conv(DEFAULT_ATOL)), V=V, o=o, pbc=np.array(sysd['pbc'], dtype=bool), symbols=tuple(sysd['symbols']),
                Vinv=np.linalg.inv(V), vmax=float(np.abs(V).max()), omax=float(np.abs(o).max()), store=store, estore=estore)
@@ -216,7 +265,9 @@ def scribble(system, env):
         if arr.size == 0 or not arr.flags.writeable:
             continue
         kind = arr.dtype.kind
-        if kind == 'b':
+        if k == 'atype':
+            arr[...] = arr % 5 + 1          # stays a legal type in any integer dtype (System.symbols refuses types < 1)
+        elif kind == 'b':
             arr[...] = ~arr
         elif kind == 'U':
             arr[...] = '#'
@@ -818,9 +869,10 @@ def do_step(am, P, env, system, m, op, first, first_snap, step, ledger, last):
         labels.add('alias_probe')
     # caller-side mutation (class B): the caller overwrites in place the arrays it passed and the system it handed in (in place or
     # through the setters); what was returned earlier must not move.  The first system of a history is only given up at its end.
-    if op['k'] % 4 == 1:
+    if op['k'] % 2 == 1:
         if overwrite_args(asnap):
             labels.add('mut_args')
+    if op['k'] % 4 == 1:
         if system is not first or last:
             ledger.drop(system)
             if op['k'] % 8 == 1:
@@ -833,6 +885,7 @@ def do_step(am, P, env, system, m, op, first, first_snap, step, ledger, last):
             if system is first:
                 first_snap.clear()
                 first_snap.update(snapshot(system))
+    if op['k'] % 2 == 1:
         ledger.judge('after the caller overwrote the arrays it had passed to / the system it had handed to ' + what)
     labels.add('ok')
     return res, new, labels, True
@@ -1331,7 +1384,7 @@ def _combo_systems():
 
 
 _COMBO_KW = {0: [['charge', 1.5], ['vel', [0.5, -1.0, 2.0]]], 1: [['tag', 9], ['st', [[1.0, 0.5], [-0.5, 2.0]]]], 2: [['tag', 9], ['st', [[1.0, 0.5], [-0.5, 2.0]]]]}
-_COMBO_K = [4, 9, 2]            # position in the sequence -> generic atom number (k % 4: in-place edit of the result / caller-side mutation / none)
+_COMBO_K = [4, 13, 2]           # position in the sequence -> generic atom number (k % 4: in-place edit of the result / caller-side mutation / none)
 
 
 def _combo_op(isys, t, sel, scale, via, atol, atype_given, oldid, kw, slot, neg=False):
@@ -1368,7 +1421,7 @@ def combo_cases(tier):
                                 for oldid in ((False, True) if t in ('i', 'db') else (False,)):
                                     for kw in ((False,) if t == 'v' else (False, True)):
                                         op = _combo_op(isys, t, sel, scale, via, atol, atype_given, oldid, kw, 0, neg)
-                                        op['k'] = 4 + n % 4
+                                        op['k'] = 4 + n % 8
                                         n += 1
                                         cases.append({'sys': systems[isys], 'ops': [op], 'units': None, 'hist': None, 'combo': 'single'})
     tpl = _combo_templates()
@@ -1413,28 +1466,41 @@ def oracle_combos(case):
 
 
 CLAUSES = [
-    Clause('insert', oracle_insert, insert_cases, quick=15000, thorough=380000,
+    Clause('insert', oracle_insert, insert_cases, quick=14000, thorough=420000,
            min_share={'nt': 0.1, 'image': 0.15, 'scaled': 0.12, 'id_neg': 0.03, 'refuse_nosite': 0.1, 'cross_pos_to_id': 0.08,
                       'cross_id_to_pos': 0.08, 'alias_probe': 0.08, 'kw': 0.1, 'twin': 0.05, 'had_old_id': 0.07, 'mixed_pbc': 0.2,
                       'type_v': 0.1, 'type_i': 0.1, 'type_s': 0.1, 'type_db': 0.08, 'via_point': 0.15,
                       'units': 0.15, 'units_named': 0.07, 'units_seed': 0.05, 'units_len_nm': 0.02, 'units_A_lt1e-3': 0.1,
                       'units_pos_default_atol': 0.09, 'units_datol_off_0.3': 0.015, 'units_datol_off_3': 0.013,
-                      'hist_before': 0.05, 'hist_after': 0.02, 'hist_both': 0.02},
+                      'hist_before': 0.05, 'hist_after': 0.02, 'hist_both': 0.02,
+                      # generator classes carried over from the seeded rounds (guards at half the observed share)
+                      'ledger': 0.26, 'ledger_other': 0.1, 'args_checked': 0.17, 'mut_args': 0.035, 'mut_input': 0.065,
+                      'mut_input_setters': 0.028, 'argdt': 0.05, 'iddt': 0.025, 'kw_narrow': 0.045, 'atol_npscalar': 0.06,
+                      'store_pos': 0.06, 'store_pos_float32': 0.035, 'store_narrow': 0.075, 'layout_ro': 0.018,
+                      'near_atol': 0.015, 'near_atol_in': 0.006, 'near_atol_out': 0.008, 'tiny_off': 0.003, 'tiny_db': 0.012,
+                      'nearface': 0.017, 'nearface_image': 0.008, 'sym': 0.1, 'sym_exact': 0.09, 'sym_perm': 0.075, 'sym_diag': 0.025,
+                      'sym_lefthanded': 0.055},
            desc='one insertion of any type, site by index or position (within/beyond atol, images, relative), against the model; '
                 'about a third under other process-wide working units (reset_units), default atol = 0.01 angstrom physically'),
-    Clause('refuse', oracle_insert, refuse_cases, quick=4600, thorough=75000, nontrivial='refusal',
+    Clause('refuse', oracle_insert, refuse_cases, quick=4400, thorough=80000, nontrivial='refusal',
            min_share={'refusal': 0.45, 'refuse_both': 0.04, 'refuse_oor': 0.03, 'refuse_neither': 0.008, 'refuse_notallowed': 0.04,
                       'refuse_occupied': 0.03, 'refuse_sametype': 0.05, 'refuse_nosite': 0.15, 'ambiguous': 0.01,
-                      'image_nonperiodic': 0.08, 'units': 0.15, 'units_pos_default_atol': 0.05, 'hist_before': 0.05},
+                      'image_nonperiodic': 0.08, 'units': 0.15, 'units_pos_default_atol': 0.05, 'hist_before': 0.05,
+                      'ledger': 0.05, 'args_checked': 0.18, 'argdt': 0.055, 'iddt': 0.03, 'store_pos': 0.06, 'sym': 0.095},
            desc='refusal classes built on purpose: absent / ambiguous / occupied site, same type, both / neither of pos and ptd_id, '
                 'index out of range, point() keyword misuse; input untouched'),
-    Clause('intpos', oracle_intpos, intpos_cases, quick=2000, thorough=20000, min_share={'int_used': 0.3, 'nt': 0.2},
+    Clause('intpos', oracle_intpos, intpos_cases, quick=2000, thorough=24000,
+           min_share={'int_used': 0.3, 'nt': 0.2, 'argdt': 0.26, 'ledger': 0.27, 'args_checked': 0.22},
            desc='positions with integral coordinates given as integer-typed list / array'),
-    Clause('history', oracle_history, history_cases, quick=2800, thorough=75000,
+    Clause('history', oracle_history, history_cases, quick=2600, thorough=90000,
            min_share={'composed': 0.15, 'nt': 0.07, 'mixed_types': 0.2, 'units': 0.15, 'units_pos_default_atol': 0.14,
-                      'units_datol_off_0.3': 0.04, 'hist_before': 0.05},
+                      'units_datol_off_0.3': 0.04, 'hist_before': 0.05,
+                      'ledger': 0.37, 'ledger_other': 0.13, 'mut_args': 0.1, 'mut_input': 0.1, 'argdt': 0.11, 'iddt': 0.045,
+                      'store_pos': 0.09, 'sym': 0.12, 'near_atol': 0.019, 'nearface': 0.028},
            desc='1-4 successive insertions; old_id composes to the first system; every intermediate input untouched'),
     Clause('combos', oracle_combos, enumerate=combo_cases, nontrivial='allok',
+           min_share={'allok': 0.48, 'allok_single': 0.012, 'allok_pair': 0.027, 'allok_triple': 0.1, 'composed': 0.33, 'ledger': 0.46,
+                      'mut_input': 0.12, 'mut_args': 0.12},
            desc='enumerated: every combination of the options of one call (type x site by +index / -index / position x scale x atol x '
                 'direct / point() x new type x old_id x keyword values), every ordered pair of (type, site, scale, extras) and every '
                 'ordered triple of defect types (thorough: of the templates), on a plain and on a triclinic system with old_id'),
